@@ -1867,8 +1867,11 @@ class SolveUnc(_BaseODE):
         if self.rbsize and incrb:
             rb = self.rb
             if self.m is not None:
-                if unc:
+                if unc and self.systype is float:
                     a_rb = self.invm[self._rb] * force[rb]
+                elif unc:
+                    # complex system: `get_su_eig` partitioned the mass
+                    a_rb = self.imrb * force[rb]
                 else:
                     a_rb = la.lu_solve(self.imrb, force[rb], check_finite=False)
             else:
